@@ -1,5 +1,6 @@
 SPECIFICATION Spec
 CONSTANTS
+  ChildrenAsSet = FALSE
   Names = {1, 2, 3, 4}
   KeysFromSorted = TRUE
   FoldOnlyOnce = FALSE
